@@ -208,6 +208,13 @@ def check_structure(spec, start, allowed, ctx, rules_list=None, tag="C02"):
         triples.append(rule_triple(rule, label))
         if isinstance(rule, ReverseRule) or (isinstance(rule, EquivalenceRule) and isinstance(rule.original_rule, ReverseRule)):
             ctx.probe("reverse_rule_in_spec")
+            base = rule if isinstance(rule, ReverseRule) else rule.original_rule
+            kind = "quotient" if type(base.strategy).__name__ in ("RemoveFront", "SplitZeros") else "complement"
+            ctx.probe(kind + "_rule_in_spec")
+            if rule.comb_class.extra_parameters:
+                ctx.probe(kind + "_with_statistics_in_spec")
+            if kind == "quotient" and not any(ch.is_atom() for ch in base.original_rule.children):
+                ctx.probe("quotient_of_two_non_atoms_in_spec")
         if isinstance(rule, EquivalencePathRule):
             ctx.probe("eqv_path_in_spec")
             if any(isinstance(r, ReverseRule) or (isinstance(r, EquivalenceRule) and isinstance(r.original_rule, ReverseRule)) for r in rule.rules):
